@@ -289,8 +289,36 @@ func sameNumeric(a, b ssa.Value) bool {
 			return noWriteBetween(ca, ua, ub) || noWriteBetween(ca, ub, ua) || loadsAfterAllWrites(ca, ua, ub)
 		}
 		// loads of the same field of the receiver (value receivers are copies; pointer receivers are not written in Pack)
-		if loadedField(ua) != nil && loadedField(ua) == loadedField(ub) {
-			return true
+		if f := loadedField(ua); f != nil && f == loadedField(ub) && ua.Parent() != nil {
+			// ... unless the function itself assigns that field (a decoder filling its receiver): then only
+			// loads with no such store between them (same block, none in between) are one number
+			stored := false
+			instrsOf(ua.Parent(), func(in ssa.Instruction) {
+				if st, ok := in.(*ssa.Store); ok && fieldOfAddr(st.Addr) == f {
+					stored = true
+				}
+			})
+			if !stored {
+				return true
+			}
+			if ua.Block() == ub.Block() {
+				i, j := instrIndex(ua), instrIndex(ub)
+				if i > j {
+					i, j = j, i
+				}
+				clean := true
+				for _, in := range ua.Block().Instrs[i:j] {
+					if st, ok := in.(*ssa.Store); ok && fieldOfAddr(st.Addr) == f {
+						clean = false
+					}
+					if _, isCall := in.(*ssa.Call); isCall {
+						clean = false
+					}
+				}
+				if clean {
+					return true
+				}
+			}
 		}
 		// loads of the same element of a slice that this function never writes (r := []rune(d); r[i] ... r[i])
 		ia, okA2 := ua.X.(*ssa.IndexAddr)
